@@ -1,0 +1,43 @@
+//go:build verif
+
+// Contracts for govc (contract-based deductive verification, see /verif/DESIGN.md).
+// Comment-only file: it adds no code and is compiled only with -tags verif.
+
+package model
+
+//@ spec fn ascending(xs []Sample) bool = forall i, j int :: 0 <= i && i < j && j < len(xs) ==> xs[i].TimestampMs < xs[j].TimestampMs
+
+//@ func (*seriesIt).Seek [C17]
+//@   requires len(s.samples) > 0
+//@   requires ascending(s.samples)
+//@   modifies s.idx
+//@   ensures found: result <==> (exists k int :: 0 <= k && k < len(s.samples) && s.samples[k].TimestampMs >= t)
+//@   ensures lands: result ==> 0 <= s.idx && s.idx < len(s.samples) && s.samples[s.idx].TimestampMs >= t
+//@   ensures first: result ==> (forall k int :: 0 <= k && k < s.idx ==> s.samples[k].TimestampMs < t)
+//@   loop 1:
+//@     invariant 0 <= l && l <= u && u <= len(s.samples)
+//@     invariant forall k int :: 0 <= k && k < l ==> s.samples[k].TimestampMs < t
+//@     invariant forall k int :: u <= k && k < len(s.samples) ==> s.samples[k].TimestampMs >= t
+//@     decreases u - l
+//@   replay:
+//@     let n = len(s.samples)
+//@     let ts[i < n] = s.samples[i].TimestampMs
+//@     let tt = t
+//@     go: it := &seriesIt{samples: make([]Sample, $n), idx: -1}
+//@     go: for i, v := range []int64{$ts} { it.samples[i].TimestampMs = v }
+//@     go: got := it.Seek($tt)
+//@     go: want := -1
+//@     go: for i := range it.samples { if it.samples[i].TimestampMs >= $tt { want = i; break } }
+//@     go: if got != (want >= 0) { confirm(fmt.Sprintf("Seek(%d) returned %v, first sample at or after t is at %d", int64($tt), got, want)) }
+//@     go: if got && it.idx != want { confirm(fmt.Sprintf("Seek(%d) landed on index %d, first sample at or after t is at %d", int64($tt), it.idx, want)) }
+//@   end
+
+//@ func (*seriesIt).Next [C17]
+//@   modifies s.idx
+//@   ensures s.idx == old(s.idx) + 1
+//@   ensures result <==> s.idx < len(s.samples)
+
+//@ func (*seriesIt).At [C17]
+//@   requires 0 <= s.idx && s.idx < len(s.samples)
+//@   modifies nothing
+//@   ensures result0 == s.samples[s.idx].TimestampMs && result1 == s.samples[s.idx].Value
